@@ -7,7 +7,7 @@ wt=/tmp/mut/$(basename $(dirname $patch))_$$
 mkdir -p /tmp/mut
 git -C /repo worktree add --detach $wt HEAD >/dev/null 2>&1 || exit 2
 # untracked verif hook files of /repo (not yet committed) are needed by harnesses
-(cd /repo && git status --porcelain | awk '/^\?\?/{print $2}' | while read f; do mkdir -p $wt/$(dirname $f); cp $f $wt/$f; done)
+(cd /repo && git status --porcelain | awk '{print $2}' | while read f; do [ -f "$f" ] && mkdir -p $wt/$(dirname $f) && cp $f $wt/$f; done)
 if ! git -C $wt apply --whitespace=nowarn "$patch"; then echo "PATCH-DOES-NOT-APPLY $patch"; git -C /repo worktree remove --force $wt; exit 3; fi
 rc=0
 for p in "$@"; do
